@@ -38,7 +38,18 @@ def classify_line(raw: str):
     return None
 
 
+def failing_run(ctx, ws):
+    """An operation that fails inside the matcher (the rule compiles to an invalid regex) on some other listing, run right
+    before a judged listing: nothing of it may reach the next listing's stream."""
+    lp = ws.write("other.s", "  401000:\t55                   \tpush   %rbp\n  401001:\tc3                   \tret\n")
+    rp = ws.write("badregex.yaml", "pattern:\n  - 'mov('\n")
+    r = real.match(rp, lp, ret="bool")
+    ctx.event("preceding_failed_runs" if r[0] == "exc" else "preceding_runs_did_not_fail")
+
+
 def judge_listing(ctx, ws, text, origin, elf_bytes=None):
+    if ctx.rng.random() < 0.25:
+        failing_run(ctx, ws)
     p = ws.write("in.s", text)
     r = objd.real_stream(ws, p)
     ctx.ran()
